@@ -1,9 +1,252 @@
 import BronVerif.Drive.Common
-/-! Driver handlers for C11. -/
+import BronVerif.Model.Router
+import BronVerif.Model.Echo
+/-! Driver handlers for C11 (router traces, namespacing, echo broadcast, runner consistency). -/
 namespace BronVerif.Drive.C11
-open BronVerif BronVerif.Drive
+open BronVerif BronVerif.Drive BronVerif.Router BronVerif.Router.Sched
 
-def handle (op : String) (_args : List String) (_rhs : String) : Verdict :=
-  .unsupported ("C11 op " ++ op)
+abbrev Ev := Event String String
+abbrev Res := Result String
+
+/-! ### parsing -/
+
+def parseIds? (s : String) : Option (List Nat) := (splitComma s).mapM String.toNat?
+
+def floodItems (sender n : Nat) (tag : String) : List (Item String String) :=
+  (List.range n).map fun i => .msg sender (tag ++ toString i) "00"
+
+def parseEvent? (tok : String) : Option Ev :=
+  match tok.splitOn ":" with
+  | ["d", f, cid, p] => do let f ← f.toNat?; pure (.enqueue [.msg f cid p])
+  | ["g", f] => do let f ← f.toNat?; pure (.enqueue [.garbage f])
+  | ["e"] => some (.enqueue [.err])
+  | ["f", f, n, tag] => do let f ← f.toNat?; let n ← n.toNat?; pure (.enqueue (floodItems f n tag))
+  | ["r", rid, cid, exp] => do let rid ← rid.toNat?; let exp ← parseIds? exp; pure (.recv rid cid exp false)
+  | ["r", rid, cid, exp, "p"] => do let rid ← rid.toNat?; let exp ← parseIds? exp; pure (.recv rid cid exp true)
+  | ["c", rid] => do let rid ← rid.toNat?; pure (.cancel rid)
+  | ["x"] => some .close
+  | _ => none
+
+/-! ### rendering -/
+
+def insertSorted {α} (lt : α → α → Bool) (a : α) : List α → List α
+  | [] => [a]
+  | b :: l => if lt a b then a :: b :: l else b :: insertSorted lt a l
+
+def sortBy {α} (lt : α → α → Bool) (l : List α) : List α := l.foldl (fun acc a => insertSorted lt a acc) []
+
+def renderFatal : Fatal → String
+  | .closed => "closed" | .full => "full" | .decode => "decode" | .transport => "transport"
+
+def renderMap (m : List (Nat × String)) : String :=
+  joinComma ((sortBy (fun a b => a.1 < b.1) m).map fun e => toString e.1 ++ "=" ++ e.2)
+
+def renderRes : Res → String
+  | .complete m => "ok:" ++ renderMap m
+  | .poisoned b => "poison:" ++ toString b
+  | .fatal k => "fatal:" ++ renderFatal k
+  | .cancelled => "cancelled"
+  | .concurrent => "concurrent"
+
+/-- `(rid, some k, res)` returned after event `k`; `(rid, none, "blocked")` -/
+def renderResults (rs : List (Nat × Option Nat × String)) : String :=
+  let rs := sortBy (fun a b => a.1 < b.1) rs
+  if rs.isEmpty then "-" else
+  ";".intercalate (rs.map fun (rid, k, r) =>
+    toString rid ++ "@" ++ (match k with | some k => toString k | none => "-") ++ "=" ++ r)
+
+def parseResults? (s : String) : Option (List (Nat × Option Nat × String)) :=
+  if s == "-" then some [] else
+  (s.splitOn ";").mapM fun t =>
+    match t.splitOn "=" with
+    | hd :: rest =>
+      match hd.splitOn "@" with
+      | [rid, k] => do
+        let rid ← rid.toNat?
+        let k ← if k == "-" then pure none else (k.toNat?).map some
+        pure (rid, k, "=".intercalate rest)
+      | _ => none
+    | _ => none
+
+def parseMap? (s : String) : Option (List (Nat × String)) :=
+  (splitComma s).mapM fun t =>
+    match t.splitOn "=" with
+    | [a, b] => do let a ← a.toNat?; pure (a, b)
+    | _ => none
+
+/-! ### model run -/
+
+def modelResults (cfg : Config) (evs : List Ev) : Option (List (Nat × Option Nat × String)) :=
+  let l := runEvents cfg evs
+  -- the scheduler only ever applied `step`: its state is `run cfg steps init`
+  let s := run cfg l.steps.reverse (init : State String String)
+  if s.log ≠ l.core.log ∨ s.entries ≠ l.core.entries ∨ s.buffered ≠ l.core.buffered then none else
+  some (l.results.map (fun (rid, k, r) => (rid, some k, renderRes r)) ++
+        l.active.map (fun a => (a.1, none, "blocked")))
+
+/-! ### property oracles on the implementation's answer (independent of the model run) -/
+
+/-- all well-formed deliveries of the trace, in enqueue order -/
+def deliveries (evs : List Ev) : List (Nat × String × String) :=
+  evs.flatMap fun
+    | .enqueue items => items.filterMap fun
+        | .msg f c p => some (f, c, p)
+        | _ => none
+    | _ => []
+
+def recvOf (evs : List Ev) (rid : Nat) : Option (String × List Nat) :=
+  evs.findSome? fun
+    | .recv r cid exp _ => if r = rid then some (cid, exp) else none
+    | _ => none
+
+def sameSet (a b : List Nat) : Bool := a.all (b.contains ·) && b.all (a.contains ·)
+
+/-- checks one implementation result against the property; `firstOnCid` says whether no earlier
+receive on the same correlation ID completed (one exchange per ID) -/
+def oracle (cfg : Config) (evs : List Ev) (rid : Nat) (res : String) (firstOnCid : Bool) : Option (String × String) :=
+  match recvOf evs rid with
+  | none => some ("unknown-receive", toString rid)
+  | some (cid, exp) =>
+    let ds := deliveries evs
+    if res.startsWith "ok:" then
+      match parseMap? (res.drop 3).toString with
+      | none => some ("unparsable-result", res)
+      | some m =>
+        if ¬ sameSet (m.map (·.1)) exp then some ("wrong-sender-set", "receive " ++ toString rid ++ " returned " ++ res)
+        else
+          m.findSome? fun (id, p) =>
+            if ¬ cfg.members.contains id then some ("non-member-payload", "receive " ++ toString rid ++ " sender " ++ toString id)
+            else if ¬ ds.any (fun d => d.1 = id ∧ d.2.1 = cid ∧ d.2.2 = p) then
+              some ("foreign-payload", "receive " ++ toString rid ++ " on " ++ cid ++ " returned " ++ p ++ " for sender " ++ toString id ++ " who never sent it under that id")
+            else if firstOnCid then
+              match ds.find? (fun d => d.1 = id ∧ d.2.1 = cid) with
+              | some d => if d.2.2 = p then none else
+                  some ("not-first-payload", "receive " ++ toString rid ++ " sender " ++ toString id ++ " expected " ++ d.2.2 ++ " got " ++ p)
+              | none => none
+            else none
+    else if res.startsWith "poison:" then
+      match (res.drop 7).toString.toNat? with
+      | none => some ("unparsable-result", res)
+      | some b =>
+        let mine := ds.filter fun d => d.1 = b ∧ d.2.1 = cid
+        let conflicting := mine.any fun d => mine.any fun d' => d.2.2 ≠ d'.2.2
+        if cfg.members.contains b ∧ conflicting then none
+        else some ("honest-blamed", "receive " ++ toString rid ++ " blames " ++ toString b ++ " who sent no conflicting payloads under " ++ cid)
+    else none
+
+def checkTrace (cfg : Config) (evs : List Ev) (rhs : String) (ignoreWhen : Bool) : Verdict :=
+  match parseResults? rhs, modelResults cfg evs with
+  | none, _ => .unsupported "rhs"
+  | _, none => .unsupported "sched-internal"
+  | some impl, some model =>
+    -- 1. oracles on every implementation result
+    let rec go (rs : List (Nat × Option Nat × String)) (done : List String) : Option (String × String) :=
+      match rs with
+      | [] => none
+      | (rid, _, res) :: rest =>
+        let cid := (recvOf evs rid).map (·.1)
+        let first := match cid with | some c => ¬ done.contains c | none => true
+        match oracle cfg evs rid res first with
+        | some b => some b
+        | none => go rest (if res.startsWith "ok:" then (match cid with | some c => c :: done | none => done) else done)
+    -- order by return time so that "first completed on the cid" is meaningful
+    let byTime := sortBy (fun a b => a.2.1.getD 1000000000 * 100000 + a.1 < b.2.1.getD 1000000000 * 100000 + b.1) impl
+    match go byTime [] with
+    | some (k, why) => .bad k why
+    | none =>
+      -- 2. model-relative property clauses
+      let viol := impl.findSome? fun (rid, _, res) =>
+        match model.find? (·.1 = rid) with
+        | none => none
+        | some (_, _, mres) =>
+          if res == "blocked" ∧ mres != "blocked" then
+            some ("deadlock", "receive " ++ toString rid ++ " still blocked although the model returns " ++ mres)
+          else if mres.startsWith "poison:" ∧ res.startsWith "ok:" then
+            some ("conflict-accepted", "receive " ++ toString rid ++ " returned " ++ res ++ " although " ++ mres)
+          else none
+      match viol with
+      | some (k, why) => .bad k why
+      | none =>
+        if ignoreWhen then
+          let strip := fun (rs : List (Nat × Option Nat × String)) => rs.map fun (rid, k, r) => (rid, k.map (fun _ => 0), r)
+          mirror (renderResults (strip model)) (renderResults (strip impl))
+        else mirror (renderResults model) (renderResults impl)
+
+/-! ### echo -/
+
+def lookupStr (k : String) (m : List (String × String)) : Option String := (m.find? (·.1 = k)).map (·.2)
+
+def parseKV? (s : String) : Option (List (String × String)) :=
+  (splitComma s).mapM fun t =>
+    match t.splitOn "=" with
+    | [a, b] => some (a, b)
+    | _ => none
+
+def checkEcho (quorum honest : List Nat) (msgs byz1 byz2 : List (String × String)) (rhs : String) : Verdict :=
+  let H : String → String := fun v => "h" ++ v
+  -- payload party p holds for sender s after round 1
+  let r1 := fun (p s : Nat) =>
+    if honest.contains s then (lookupStr (toString s) msgs).getD "?"
+    else (lookupStr (toString s ++ ">" ++ toString p) byz1).getD "?"
+  -- digest echoer e reported to p for sender s
+  let echo := fun (p e s : Nat) =>
+    if honest.contains e then Echo.honestEcho H (r1 e) s
+    else (lookupStr (toString e ++ ">" ++ toString p ++ ":" ++ toString s) byz2).getD "z"
+  let model := ";".intercalate (honest.map fun p =>
+    toString p ++ "=" ++ (match Echo.round3 H quorum p (r1 p) (echo p) with
+      | some m => "ok:" ++ renderMap m
+      | none => "fail"))
+  -- agreement oracle on the implementation's answer
+  let impl : List (Nat × List (Nat × String)) := (rhs.splitOn ";").filterMap fun t =>
+    match t.splitOn "=ok:" with
+    | [p, m] => do let p ← p.toNat?; let m ← parseMap? m; pure (p, m)
+    | _ => none
+  let dis := impl.findSome? fun (p, mp) => impl.findSome? fun (q, mq) =>
+    mp.findSome? fun (s, v) =>
+      match mq.find? (·.1 = s) with
+      | some (_, v') => if v ≠ v' then some ("parties " ++ toString p ++ " and " ++ toString q ++ " accepted " ++ v ++ " and " ++ v' ++ " from " ++ toString s) else none
+      | none => none
+  match dis with
+  | some why => .bad "echo-disagreement" why
+  | none => mirror model rhs
+
+/-! ### dispatch -/
+
+def handle (op : String) (args : List String) (rhs : String) : Verdict :=
+  match op, args with
+  | "tr", ms :: bs :: evs =>
+    match parseIds? ms, bs.toNat?, evs.mapM parseEvent? with
+    | some members, some bound, some evs => checkTrace { members, bound } evs rhs false
+    | _, _, _ => .unsupported "args"
+  | "stress", ms :: bs :: evs =>
+    match parseIds? ms, bs.toNat?, evs.mapM parseEvent? with
+    | some members, some bound, some evs => checkTrace { members, bound } evs rhs true
+    | _, _, _ => .unsupported "args"
+  | "send", [path, cid, msgs] =>
+    match parseMap? msgs with
+    | none => .unsupported "args"
+    | some m =>
+      let w := String.ofList (wire ((splitComma path).map String.toList) cid.toList)
+      spec "namespace-wire-id" (joinComma ((sortBy (fun a b => a.1 < b.1) m).map fun (to, p) =>
+        toString to ++ ":" ++ w ++ ":" ++ p)) rhs
+  | "echo", [qs, hs, msgs, b1, b2] =>
+    match parseIds? qs, parseIds? hs, parseKV? msgs, parseKV? b1, parseKV? b2 with
+    | some q, some h, some m, some b1, some b2 => checkEcho q h m b1 b2 rhs
+    | _, _, _, _, _ => .unsupported "args"
+  | "run", [_proto, ns, _variant] =>
+    -- rhs: <round-by-round sample>|<p=sample,...> ; the runner outputs must all equal the
+    -- round-by-round output
+    match ns.toNat?, rhs.splitOn "|" with
+    | some n, [ref, outs] =>
+      match parseKV? outs with
+      | some kv =>
+        if kv.length ≠ n then .bad "runner-missing-output" ("expected " ++ toString n ++ " outputs: " ++ rhs)
+        else if ref == "" ∨ ref.startsWith "err" then .unsupported "reference run failed"
+        else match kv.find? (·.2 ≠ ref) with
+          | some (p, v) => .bad "runner-inconsistent" ("party " ++ p ++ " output " ++ v ++ " round-by-round " ++ ref)
+          | none => .ok
+      | none => .unsupported "rhs"
+    | _, _ => .unsupported "args"
+  | _, _ => .unsupported ("C11 op " ++ op)
 
 end BronVerif.Drive.C11
